@@ -26,7 +26,7 @@ MustRefuse(tls, profile, proto) == (~tls /\ profile = "SAVP") \/ (tls /\ profile
 Admit(tls, profile, proto, ok) == ok = ~MustRefuse(tls, profile, proto) /\ UNCHANGED secvars
 
 \* the client refuses a redirect from rtsps to rtsp
-Redirect(fromSecure, toSecure, followed) == (fromSecure /\ ~toSecure) => ~followed /\ UNCHANGED secvars
+Redirect(fromSecure, toSecure, followed) == ((fromSecure /\ ~toSecure) => ~followed) /\ UNCHANGED secvars
 
 Sent(id) == sent' = sent \cup {id} /\ UNCHANGED <<tampered, got>>
 
